@@ -172,3 +172,79 @@ Proof.
     - apply IH. intros c Hc. apply Hl. right. exact Hc. }
   rewrite L. reflexivity.
 Qed.
+
+(* ---- the executable ancestor set is exactly reachability (on a topologically ordered list) ---- *)
+Lemma find_unique pre x suf : topo_ok (pre ++ x :: suf) = true -> find (fun y => c_id y =? c_id x) (pre ++ x :: suf) = Some x.
+Proof.
+  intros Ht. induction pre as [|y pre IH]; cbn [app find].
+  - rewrite N.eqb_refl. reflexivity.
+  - destruct (c_id y =? c_id x) eqn:E.
+    + exfalso. apply N.eqb_eq in E. cbn in Ht. apply andb_true_iff in Ht. destruct Ht as [Ht _]. apply andb_true_iff in Ht. destruct Ht as [_ Hu].
+      apply negb_true_iff in Hu. assert (K : mem (c_id y) (map c_id (pre ++ x :: suf)) = true).
+      { apply mem_In. rewrite map_app. apply in_or_app. right. left. symmetry. exact E. }
+      congruence.
+    + apply IH. eapply topo_tail, Ht.
+Qed.
+
+Lemma find_listed r a cm : topo_ok (g_commits r) = true -> find_commit r a = Some cm -> In cm (g_commits r) /\ c_id cm = a.
+Proof. intros _ H. apply find_in_list, H. Qed.
+
+Section Mark.
+Variable r : gitrepo.
+Variable c : N.
+
+Definition inv (pre : list commit) (seen : list N) : Prop :=
+  (forall y, In y seen -> reach r c y) /\
+  (forall z, In z pre -> In (c_id z) seen -> forall p, In p (c_parents z) -> In p seen) /\
+  In c seen.
+
+Lemma mark_inv suf : forall pre seen, g_commits r = pre ++ suf -> topo_ok (pre ++ suf) = true -> inv pre seen -> inv (pre ++ suf) (mark suf seen).
+Proof.
+  induction suf as [|x suf IH]; intros pre seen Hg Ht [I1 [I2 I3]]; cbn [mark].
+  - rewrite app_nil_r. repeat split; assumption.
+  - assert (E : pre ++ x :: suf = (pre ++ [x]) ++ suf) by (rewrite <- app_assoc; reflexivity).
+    rewrite E. destruct (mem (c_id x) seen) eqn:M.
+    + apply IH; [rewrite Hg; exact E|rewrite <- E; exact Ht|]. apply mem_In in M. repeat split.
+      * intros y Hy. apply in_app_or in Hy. destruct Hy as [Hy|Hy]; [apply I1, Hy|].
+        (* y is a parent of x, x is reachable *)
+        assert (R : reach r c (c_id x)) by (apply I1, M).
+        assert (F : find_commit r (c_id x) = Some x) by (unfold find_commit; rewrite Hg; apply find_unique, Ht).
+        clear - R F Hy. induction R as [a|a c0 p b Hf Hp R IH]; [eapply reach_step; [exact F|exact Hy|apply reach_refl]|].
+        eapply reach_step; [exact Hf|exact Hp|apply IH; assumption].
+      * intros z Hz Hs p Hp. apply in_app_or in Hz. destruct Hz as [Hz|[<-|[]]].
+        -- apply in_or_app. apply in_app_or in Hs. destruct Hs as [Hs|Hs]; [left; eapply I2; eassumption|].
+           (* id z among the parents of x: impossible, parents are listed after x and ids are unique *)
+           exfalso. pose proof (topo_app pre (x :: suf) Ht) as Tx. cbn in Tx. apply andb_true_iff in Tx. destruct Tx as [Tx _]. apply andb_true_iff in Tx. destruct Tx as [Tp _].
+           rewrite forallb_forall in Tp. specialize (Tp _ Hs). apply mem_In in Tp.
+           (* c_id z is in ids(suf) and z is in pre *)
+           clear - Ht Hz Tp. induction pre as [|w pre IHp]; [destruct Hz|]. destruct Hz as [->|Hz].
+           ++ cbn in Ht. apply andb_true_iff in Ht. destruct Ht as [Ht _]. apply andb_true_iff in Ht. destruct Ht as [_ Hu]. apply negb_true_iff in Hu.
+              assert (K : mem (c_id z) (map c_id (pre ++ x :: suf)) = true) by (apply mem_In; rewrite map_app; apply in_or_app; right; right; exact Tp). congruence.
+           ++ apply IHp; [eapply topo_tail, Ht|exact Hz].
+        -- apply in_or_app. right. exact Hp.
+      * apply in_or_app. left. exact I3.
+    + apply IH; [rewrite Hg; exact E|rewrite <- E; exact Ht|]. repeat split; [exact I1| |exact I3].
+      intros z Hz Hs p Hp. apply in_app_or in Hz. destruct Hz as [Hz|[<-|[]]]; [eapply I2; eassumption|].
+      apply mem_In in Hs. congruence.
+Qed.
+End Mark.
+
+Theorem ancestors_is_reach r c : topo_ok (g_commits r) = true -> forall x, In x (ancestors r c) <-> reach r c x.
+Proof.
+  intros Ht x. unfold ancestors.
+  assert (I0 : inv r c [] [c]) by (repeat split; [intros y [<-|[]]; apply reach_refl|intros z []|left; reflexivity]).
+  pose proof (mark_inv r c (g_commits r) [] [c] eq_refl Ht I0) as [I1 [I2 I3]]. cbn [app] in I1, I2, I3.
+  set (F := mark (g_commits r) [c]) in *. split; [apply I1|]. intros R.
+  assert (G : forall a b, reach r a b -> In a F -> In b F).
+  { intros a b Rab. induction Rab as [a|a cm p b Hf Hp Rab IH]; [tauto|]. intros Ha. apply IH.
+    destruct (find_listed r a cm Ht Hf) as [Hin Hid]. subst a. eapply I2; eassumption. }
+  apply (G c x R I3).
+Qed.
+
+(* distance = number of listed commits (reachable from HEAD) that are not reachable from the tagged commit *)
+Theorem distance_spec r c : topo_ok (g_commits r) = true ->
+  distance r c = N.of_nat (length (filter (fun x => negb (mem (c_id x) (ancestors r c))) (g_commits r))) /\
+  forall x, In x (g_commits r) -> (mem (c_id x) (ancestors r c) = true <-> reach r c (c_id x)).
+Proof.
+  intros Ht. split; [reflexivity|]. intros x _. rewrite mem_In. apply ancestors_is_reach, Ht.
+Qed.
